@@ -284,3 +284,107 @@ Definition agree_hres (impl model : hres) : bool :=
   | HErr a, HErr b => err_eqb a b
   | _, _ => false
   end.
+
+(* ------------------------------------------------------------------ point_in_polyhedron *)
+(* Only the decision logic around the degeneracy checks of PointInPolyhedron.solid_angle
+   is transcribed (the solid-angle sum itself uses arctan2 and is not modelled): for each
+   triangle, in order, ValueError if the point coincides with a vertex (|r| < tol), is
+   collinear with two vertices (0.5 |r_i x r_j| < tol) or is coplanar with the triangle's
+   supporting plane (|r_1 . ((r_0 - r_1) x (r_2 - r_1))| < tol); point_in_polyhedron maps
+   each of these errors to "outside".  Norm tests in squared form. *)
+Definition tri3 := (v3 * v3 * v3)%type.
+
+Definition tol10 : Q := 1 # 10000000000.
+
+Definition tri_raises (tol : Q) (p : v3) (T : tri3) : bool :=
+  let '(A, B, C) := T in
+  let r0 := sub3 A p in let r1 := sub3 B p in let r2 := sub3 C p in
+  let sq v := dot3 v v in
+  qltb (sq r0) (tol * tol) || qltb (sq r1) (tol * tol) || qltb (sq r2) (tol * tol)
+  || qltb (sq (crs3 r0 r1)) (4 * tol * tol) || qltb (sq (crs3 r1 r2)) (4 * tol * tol)
+  || qltb (sq (crs3 r2 r0)) (4 * tol * tol)
+  || qltb (Qabs (dot3 r1 (crs3 (sub3 r0 r1) (sub3 r2 r1)))) tol.
+
+(* Some false: decided "outside" by a raised degeneracy error; None: decided by the
+   solid-angle sum (not modelled) *)
+Definition pih_decision (tol : Q) (tris : list tri3) (p : v3) : option bool :=
+  if existsb (tri_raises tol p) tris then Some false else None.
+
+(* exact reference: parity of the crossings of the ray p + t d, t > 0, with the closed
+   triangulated surface; None when the ray meets an edge/vertex or p lies on a triangle *)
+Definition det3 (a b c : v3) : Q := dot3 a (crs3 b c).
+
+Definition ray_dir : v3 := (1, 1 # 3, 1 # 7).
+
+(* 0: no crossing, 1: one crossing, 2: degenerate *)
+Definition ray_tri (p : v3) (T : tri3) : nat :=
+  let '(A, B, C) := T in
+  let a := sub3 A p in let b := sub3 B p in let c := sub3 C p in
+  let s1 := det3 ray_dir a b in let s2 := det3 ray_dir b c in let s3 := det3 ray_dir c a in
+  let V := det3 a b c in
+  if (qltb 0 s1 && qltb s2 0) || (qltb 0 s2 && qltb s3 0) || (qltb 0 s3 && qltb s1 0)
+     || (qltb s1 0 && qltb 0 s2) || (qltb s2 0 && qltb 0 s3) || (qltb s3 0 && qltb 0 s1)
+  then 0%nat
+  else if qltb 0 s1 && qltb 0 s2 && qltb 0 s3 then
+         (if qltb 0 V then 1 else if qltb V 0 then 0 else 2)%nat
+  else if qltb s1 0 && qltb s2 0 && qltb s3 0 then
+         (if qltb V 0 then 1 else if qltb 0 V then 0 else 2)%nat
+  else 2%nat.
+
+Definition pih_ref (tris : list tri3) (p : v3) : option bool :=
+  let ks := map (ray_tri p) tris in
+  if existsb (Nat.eqb 2) ks then None
+  else Some (Nat.odd (fold_right Nat.add 0%nat ks)).
+
+(* impl: (raised a degeneracy error?, returned value) *)
+Definition agree_pih (raised result : bool) (tol : Q) (tris : list tri3) (p : v3) : bool :=
+  match pih_decision tol tris p with
+  | Some b => raised && Bool.eqb result b
+  | None => negb raised &&
+            match pih_ref tris p with Some b => Bool.eqb result b | None => true end
+  end.
+
+(* ------------------------------------------------------------------ compute_normal /
+   points_are_planar(normal=None) *)
+(* map_geometry.compute_normal, returning the UN-normalised cross product (the caller only
+   uses its direction); norms compared in squared form; np.argmax = first maximiser.
+   ValueError for fewer than 3 points, RuntimeError when the longest cross product is
+   within atol = tol * |v1| * |v_c| of zero in every component. *)
+Inductive nres := NOk (n : v3) | NValueErr | NRuntimeErr.
+
+Definition argmax_list (l : list Q) : nat :=
+  match l with [] => 0%nat | x :: r => argmax_first r 1 x 0 end.
+
+Definition compute_normal (tol : Q) (pts : list v3) : nres :=
+  if (length pts <=? 2)%nat then NValueErr
+  else
+    let c := mean3 pts in
+    let v := map (fun p => sub3 p c) pts in
+    let nrm2 := map (fun w => dot3 w w) v in
+    let i1 := argmax_list nrm2 in
+    let v1 := nth i1 v (0, 0, 0) in
+    let crosses := map (fun w => crs3 v1 w) v in
+    let ic := argmax_list (map (fun w => dot3 w w) crosses) in
+    let normal := nth ic crosses (0, 0, 0) in
+    let scal2 := nth i1 nrm2 0 * nth ic nrm2 0 in
+    let '(n0, n1, n2) := normal in
+    if Qle_bool (n0 * n0) (tol * tol * scal2) && Qle_bool (n1 * n1) (tol * tol * scal2)
+       && Qle_bool (n2 * n2) (tol * tol * scal2)
+    then NRuntimeErr else NOk normal.
+
+Inductive pres := POk (b : bool) | PValueErr | PRuntimeErr.
+
+(* points_are_planar(pts, normal=None, tol): compute_normal(pts) with ITS default 1e-5 *)
+Definition points_are_planar_auto (tol_normal tol : Q) (pts : list v3) : pres :=
+  match compute_normal tol_normal pts with
+  | NOk n => POk (points_are_planar tol n pts)
+  | NValueErr => PValueErr
+  | NRuntimeErr => PRuntimeErr
+  end.
+
+Definition agree_pres (impl model : pres) : bool :=
+  match impl, model with
+  | POk a, POk b => Bool.eqb a b
+  | PValueErr, PValueErr | PRuntimeErr, PRuntimeErr => true
+  | _, _ => false
+  end.
